@@ -51,9 +51,13 @@ func VH_C09_import_send_faults() {
 	client := c.addImport(importID(vNondetU32()))
 	c.mu.Unlock()
 	vRegion("newmessage_failed", true)
-	ans, rel := client.SendCall(context.Background(), capnpSend(vNondetBool()))
+	cctx, ccancel := vCallerCtx()
+	defer ccancel()
+	before := t.otherCtxSeen
+	ans, rel := client.SendCall(cctx, capnpSend(vNondetBool()))
 	vReach("returned")
 	vAssert(ans != nil && rel != nil, "C09.import.send.returns-an-answer")
+	vAssert(t.otherCtxSeen == before, "C09.import.send.bounded-by-the-callers-context")
 	vQuiescent(c, "C09.import.send")
 	if t.sends == 0 {
 		vAssert(len(c.questions) == 0 || c.questions[0] == nil, "C09.import.send.failed-question-dropped")
@@ -68,9 +72,13 @@ func VH_C09_pipeline_send_faults() {
 	vAssume(t.sends == 1)
 	t.faultNewMessage, t.faultSend = true, true
 	vRegion("newmessage_failed", true)
-	ans, rel := bc.SendCall(context.Background(), capnpSend(vNondetBool()))
+	cctx, ccancel := vCallerCtx()
+	defer ccancel()
+	before := t.otherCtxSeen
+	ans, rel := bc.SendCall(cctx, capnpSend(vNondetBool()))
 	vReach("returned")
 	vAssert(ans != nil && rel != nil, "C09.pipeline.send.returns-an-answer")
+	vAssert(t.otherCtxSeen == before, "C09.pipeline.send.bounded-by-the-callers-context")
 	vQuiescent(c, "C09.pipeline.send")
 }
 
